@@ -1,7 +1,8 @@
 import FlowRecord.Drive.Util
 import FlowRecord.Model.Sqlite
 /-!
-Driver for C18: `{"op":"sqlite","batches":[n…],"hist":[{"k":"w","name":…,"fields":[[fname,ftype]…],"vals":[VAL…]} | {"k":"f"} | {"k":"c"}]}`
+Driver for C18: `{"op":"sqlite","batches":[n…],"hist":[{"k":"w","name":…,"fields":[[fname,ftype]…],"vals":[VAL…]} | {"k":"f"} | {"k":"c"} | {"k":"r"}]}`
+(`r` = the writer is closed and a new `SqliteWriter` is opened on the same file: `reopen`)
 VAL = ["none"] | ["bool",0|1] | ["int",dec] | ["float",hex16] | ["bytes",hex] | ["str",utf32hex] | ["dt",utf32hex of the ISO text]
       | ["other",utf32hex of str(value)]
 Answer: per call the outcome and the committed tables (what a second connection sees), whether the history is still
@@ -42,11 +43,12 @@ def parsePyVal (j : Json) : Except String (PyVal Text) := do
   | "other" => do let t ← textArg; pure (.other t)
   | _ => throw s!"bad value kind {k}"
 
-def parseSqlOp (j : Json) : Except String (Op Text) := do
+def parseSqlOp (j : Json) : Except String (Option (Op Text)) := do
   let k ← getStr j "k"
   match k with
-  | "f" => pure .flush
-  | "c" => pure .close
+  | "f" => pure (some .flush)
+  | "c" => pure (some .close)
+  | "r" => pure none
   | "w" => do
     let name ← getStr j "name"
     let fs ← getArr j "fields"
@@ -57,7 +59,7 @@ def parseSqlOp (j : Json) : Except String (Op Text) := do
       pure (nameOfString n, t))
     let vs ← getArr j "vals"
     let vals ← vs.toList.mapM parsePyVal
-    pure (.write { name := nameOfString name, fields := fields } vals)
+    pure (some (.write { name := nameOfString name, fields := fields } vals))
   | _ => throw s!"bad op kind {k}"
 
 def dbValJson : DbVal → Json
@@ -119,9 +121,16 @@ def readTableJson (t : Table) : Json :=
     Json.arr (t.cols.map (fun c => Json.str (stringOfName c.1))).toArray,
     Json.arr (cells.map (fun r => Json.arr r.toArray)).toArray]
 
-def sqlLoop : St → Bool → List (Op Text) → List Json → St × List Json
+def sqlLoop : St → Bool → List (Option (Op Text)) → List Json → St × List Json
   | s, _, [], acc => (s, acc.reverse)
-  | s, ok, op :: ops, acc =>
+  | s, ok, none :: ops, acc =>
+    -- a new writer session: `close` of the old writer, then `SqliteWriter(path)` again
+    let s' := reopen (apply sqlEnv s .close).1
+    let j := Json.mkObj [("outcome", outcomeJson .ok), ("modelled", Json.bool ok),
+      ("tables", Json.arr (s'.committed.map tableJson).toArray),
+      ("count", Json.num s'.count)]
+    sqlLoop s' ok ops (j :: acc)
+  | s, ok, some op :: ops, acc =>
     let ok' := ok && callModelled s op
     let r := apply sqlEnv s op
     let j := Json.mkObj [("outcome", outcomeJson r.2), ("modelled", Json.bool ok'),
